@@ -132,6 +132,12 @@ class Validator(object):
                 errs.append(ValidationError("Datatype {} is not correct for {}.{} (it must be {})".
                                             format(el.datatype, el.parent.name, el.name, ref[1])))
 
+        def _is_open_ended_child(el, child):
+            if el.classname != 'Segment' or not el.allow_infinite_children or child.name is None:
+                return False
+            prefix, _, index = child.name.rpartition('_')
+            return prefix == el.name and index.isdigit() and int(index) > el._last_allowed_child_index
+
         def _get_valid_children_info(ref):
             valid_children = {c[0] for c in ref[1]}
             children_refs = ref[1]
@@ -150,7 +156,8 @@ class Validator(object):
                     return
 
             if ref[0] in ('sequence', 'choice'):
-                element_children = {c.name for c in el.children if not c.is_z_element()}
+                # fields beyond the last defined one of an open-ended segment (e.g. QPD_4.. user parameters) are legal
+                element_children = {c.name for c in el.children if not c.is_z_element() and not _is_open_ended_child(el, c)}
                 valid_children, valid_children_refs = _get_valid_children_info(ref)
 
                 # check that the children are all allowed children
